@@ -334,9 +334,10 @@ def c13_bounded(tier, seed):
     def run():
         logging.getLogger("gtirb_rewriting").setLevel(logging.CRITICAL)
         br = BResult()
-        br.bound = "x64 AT&T: a patch with a temporary label assembled 1..5 times with distinct suffixes; every split of 4 programs (<= 5 lines) into chunks at line boundaries"
+        br.bound = "x64 AT&T: a patch with a temporary label assembled 1..5 times with distinct suffixes; every split of 9 programs (<= 6 lines; labels in the middle, at the very start, stacked, before data, in a second section) into chunks at line boundaries"
         br.clauses = ["C13/repeated-patch-never-yields-two-symbols-with-one-name", "C13/no-copy-captures-another-copys-label",
-                      "C13/chunked-assembly-equals-whole-assembly", "C13/existing-name-binds-to-the-module-symbol-object"]
+                      "C13/chunked-assembly-equals-whole-assembly", "C13/chunked-assembly-equals-whole-assembly/boundary-inside-a-non-text-section",
+                      "C13/existing-name-binds-to-the-module-symbol-object"]
         isa, ff, syntax, cs = ISAS["x64-att"]
         patch = "jmp .Lskip\nnop\n.Lskip:\nnop"
         for n in range(1, 6):
@@ -356,7 +357,11 @@ def c13_bounded(tier, seed):
                     s.module = m
             if len(set(names)) != len(names):
                 br.failures.append({"clause": "C13/repeated-patch-never-yields-two-symbols-with-one-name", "witness": {"copies": n}, "detail": str(names)})
-        progs = ["nop\nLab:\npushq %rax\njmp Lab", "call modsym\nnop\nret", "pushq %rax\nA1:\nje A1\n.byte 1, 2\nnop", "movq modsym(%rip), %rax\nB1:\nnop\njmp B1\nret"]
+        progs = ["nop\nLab:\npushq %rax\njmp Lab", "call modsym\nnop\nret", "pushq %rax\nA1:\nje A1\n.byte 1, 2\nnop", "movq modsym(%rip), %rax\nB1:\nnop\njmp B1\nret",
+                 # labels at the very start of the text (their block is still empty when the next chunk arrives), stacked labels,
+                 # a label right before data directives, a leading label in a data section
+                 "Lab:\nnop\njmp Lab", "Lab:\nA1:\nnop\nje A1\njmp Lab", "Lab:\n.byte 1, 2\nnop\njmp Lab",
+                 "nop\n.section .rodata\nB1:\n.string \"x\"\n.text\nleaq B1(%rip), %rax", "Lab:\ncall modsym\nA1:\nB1:\nret\njmp A1"]
 
         def dump(res):
             sec = res.text_section
@@ -401,7 +406,17 @@ def c13_bounded(tier, seed):
                 except Exception as e:
                     got = "%s: %s" % (type(e).__name__, str(e)[:80])
                 if got != whole:
-                    br.failures.append({"clause": "C13/chunked-assembly-equals-whole-assembly", "witness": {"chunks": chunks}, "detail": "chunked %s whole %s" % (str(got)[:200], str(whole)[:200])})
+                    # is some chunk boundary inside a non-text section?  (every assemble() call starts in .text again)
+                    cur_sec, inside = ".text", False
+                    for ch in chunks[:-1]:
+                        for l in ch:
+                            if l.startswith(".section "):
+                                cur_sec = l.split()[1]
+                            elif l in (".text", ".data"):
+                                cur_sec = l
+                        inside = inside or cur_sec != ".text"
+                    clause = "C13/chunked-assembly-equals-whole-assembly" + ("/boundary-inside-a-non-text-section" if inside else "")
+                    br.failures.append({"clause": clause, "witness": {"chunks": chunks}, "detail": "chunked %s whole %s" % (str(got)[:200], str(whole)[:200])})
             res_sym = [v.symbol for v in []]
         ir, m, modsym = mk_module(isa, ff)
         a = Assembler(m)
